@@ -469,8 +469,9 @@ def coq_term(case, obs):
     tot = cz(round(ff["total_span"] / s))
     # (1) faithful algorithm model = C exactly (emission order, summaries, totals)
     # (2) specification = C as sets per pair
-    t = ("c19_check_alg %s %s %s %s %s %s && c19_check_spec %s %s"
-         % (c, stored, summ, cz(ff["num_segments"]), tot, "true" if exact else "false", c, stored))
+    # (3) the hypotheses of Props.C19.ibd_alg_refines_spec_partial hold at every position
+    t = ("let c := %s in let stored := %s in c19_check_alg c stored %s %s %s %s && c19_check_spec c stored && c19_check_valid c"
+         % (c, stored, summ, cz(ff["num_segments"]), tot, "true" if exact else "false"))
     return t
 
 
@@ -548,7 +549,7 @@ class IbdSmall(IbdBase):
     name = "ibd_small"
 
     def generate(self, rng, tier):
-        n = 450 if tier == "quick" else 6000
+        n = 1500 if tier == "quick" else 16000
         for _ in range(n):
             yield make_case(rng, 8, 6)
 
@@ -605,7 +606,7 @@ class IbdLarge(IbdBase):
     coq = False
 
     def generate(self, rng, tier):
-        for _ in range(120 if tier == "quick" else 3000):
+        for _ in range(400 if tier == "quick" else 6000):
             yield make_case(rng, 14, 12)
 
 
@@ -613,6 +614,18 @@ class IbdErrors(Family):
     """Arguments the documentation excludes must be rejected, not silently accepted."""
     name = "ibd_errors"
     workers = 4
+    prelude = PRELUDE
+
+    def coq_check(self, case, obs):
+        # the C-level rejections are modelled (init_ssid / parameter checks); within+between is
+        # rejected by the Python layer before the C code is reached
+        if case["bad"] == "within+between" or isinstance(obs["tc"], dict):
+            return None
+        d = case["desc"]
+        tc = gen_ts.build_tables(full(case))
+        lat = lattice_map(d)
+        edges = [[lat[float(e.left)], lat[float(e.right)], int(e.parent), int(e.child)] for e in tc.edges]
+        return "c19_alg_rejects %s" % coq_case(case, {"edges": edges})
 
     def generate(self, rng, tier):
         for _ in range(40 if tier == "quick" else 400):
